@@ -445,8 +445,82 @@ def rule_Q5(ctx) -> None:
             ctx.proved("Q5", name, mod.loc(fn), f"{n} range comparisons")
 
 
+def _unpadded_year_formats(tree: ast.AST):
+    """strftime calls whose constant format prints the year with %Y / %G: the C library does not zero-pad years below 1000
+    (glibc prints 999, RFC 3339 and isoparse want 0999)"""
+    out = []
+    for c in ast.walk(tree):
+        if isinstance(c, ast.Call) and isinstance(c.func, ast.Attribute) and c.func.attr == "strftime" and c.args:
+            a = c.args[0]
+            if isinstance(a, ast.Constant) and isinstance(a.value, str) and ("%Y" in a.value or "%G" in a.value):
+                out.append(c)
+        if isinstance(c, ast.JoinedStr):
+            for v in c.values:
+                if isinstance(v, ast.FormattedValue) and isinstance(v.format_spec, ast.JoinedStr):
+                    spec = "".join(x.value for x in v.format_spec.values if isinstance(x, ast.Constant) and isinstance(x.value, str))
+                    if "%Y" in spec or "%G" in spec:
+                        out.append(c)
+    return out
+
+
+def rule_Q7(ctx, rule: str = "Q7") -> None:
+    """the RFC 3339 text of a Timestamp has a four-digit year for every year of the valid range (0001-9999): it is built with
+    the fixed-width isoformat(), never with a strftime %Y"""
+    control = ast.parse("def f(dt):\n    return dt.strftime('%Y-%m-%dT%H:%M:%S')\ndef g(dt):\n    return dt.isoformat()\n")
+    if len(_unpadded_year_formats(control)) != 1:
+        raise AnalysisError("Q7 positive control not flagged")
+    mod = ctx.repo.mod(M_INIT)
+    n = 0
+    for q in ("_Timestamp.timestamp_to_json", "_Timestamp.from_datetime", "_Timestamp.to_datetime"):
+        if not mod.has(q):
+            continue
+        fn = mod.func(q)
+        n += 1
+        hits = _unpadded_year_formats(fn)
+        name = f"{q.split('.')[-1]}:four-digit-year"
+        if hits:
+            ctx.refuted(rule, name, ast.unparse(hits[0])[:80], mod.loc(hits[0]),
+                        f"{q} prints the year with strftime %Y ({ast.unparse(hits[0])[:60]}): the C library does not zero-pad, so a Timestamp before the year 1000 is emitted as "
+                        "'999-12-31T...', which is not RFC 3339 and is rejected by from_dict / the reference parser", "M(ts=datetime(999, 12, 31, tzinfo=utc)).to_json()")
+        else:
+            ctx.proved(rule, name, mod.loc(fn))
+    ctx.floor(rule, "timestamp text functions", n, 1)
+
+
+def rule_Q6(ctx) -> None:
+    """every Timestamp / Duration (and wrapper / nested) payload is parsed into a fresh message: parse() merges into what the
+    receiver already holds and leaves fields that are absent from the payload alone, so a decoder object that outlives one
+    value (a module-level instance, an attribute) leaks the previous value's seconds / nanos into the next"""
+    mod = ctx.repo.mod(M_INIT)
+    fn = mod.func("Message._postprocess_single")
+    ctx.analysed("Message._postprocess_single")
+    paths = Interp(mod).run(fn)
+    ctx.count(len(paths))
+    n = 0
+    bad = None
+    for p in paths:
+        for e in p.events:
+            if e.kind == "call" and e.data[1][0] == "a" and e.data[1][2] in ("parse", "load", "FromString"):
+                recv = e.data[1][1]
+                n += 1
+                if recv[0] == "call":
+                    continue                      # X().parse(...): constructed for this value
+                if recv[0] == "n" and recv[1] in ("cls", "self"):
+                    continue
+                bad = bad or (show(recv), e.line)
+    name = "_postprocess_single:parses-into-fresh-message"
+    if not n:
+        ctx.inconclusive("Q6", name, "no parse call found", mod.loc(fn))
+    elif bad:
+        ctx.refuted("Q6", name, f"receiver={bad[0]}", f"{mod.rel}:{bad[1]}",
+                    f"a payload is parsed into {bad[0]}, an object that is not created for this value: parse() does not reset fields that are absent from the payload, so a value with "
+                    "nanos (or seconds) 0 inherits the previous value's", "decode 1.5 s, then 2 s: the second comes out as 2.5 s")
+    else:
+        ctx.proved("Q6", name, mod.loc(fn), f"{n} parse calls, all on freshly constructed messages")
+
+
 def run(ctx) -> None:
-    for name, fn in (("Q1", rule_Q1), ("Q2", rule_Q2), ("Q3", rule_Q3), ("Q4", rule_Q4), ("Q5", rule_Q5), ("K3", jsonrules.rule_K3)):
+    for name, fn in (("Q7", rule_Q7), ("Q6", rule_Q6), ("Q1", rule_Q1), ("Q2", rule_Q2), ("Q3", rule_Q3), ("Q4", rule_Q4), ("Q5", rule_Q5), ("K3", jsonrules.rule_K3)):
         ctx.rules_run.append(name)
         fn(ctx)
     ctx.assume("declared range table: timedelta.days in +-999999999, .seconds in [0, 86400), .microseconds/.microsecond in [0, 10**6), nanos in +-(10**9 - 1)")
